@@ -61,7 +61,16 @@ impl<'a> EntryTree<'a> {
     ///
     /// This is the number of terminal columns used for labeling benchmark names
     /// prior to emitting stats columns.
-    pub fn max_name_span(tree: &[Self], depth: usize) -> usize {
+    ///
+    /// `runner_threads` are the thread counts set at runtime, which override
+    /// those of every benchmark, and `parent_threads` are the ones inherited
+    /// from the nearest group that sets them.
+    pub fn max_name_span(
+        tree: &[Self],
+        depth: usize,
+        runner_threads: Option<&[usize]>,
+        parent_threads: Option<&[usize]>,
+    ) -> usize {
         // The number of terminal columns used per-depth for box drawing
         // characters. For example, "│  ╰─ " is 6 for depth 2.
         const DEPTH_COLS: usize = 3;
@@ -74,9 +83,42 @@ impl<'a> EntryTree<'a> {
                     prefix_len + name_len
                 };
 
+                let node_threads = node
+                    .bench_options()
+                    .and_then(|options| options.threads.as_deref())
+                    .or(parent_threads);
+
                 // The maximum span of any descendent.
-                let children_max_span =
-                    Self::max_name_span(node.children(), depth + 1);
+                let children_max_span = Self::max_name_span(
+                    node.children(),
+                    depth + 1,
+                    runner_threads,
+                    node_threads,
+                );
+
+                // The maximum span of any thread count branch ("t=N"). These
+                // are emitted below the benchmark, or below each of its
+                // runtime arguments, when there are multiple thread counts.
+                let threads_max_span = match node {
+                    Self::Leaf { args, .. } => {
+                        let thread_counts = crate::util::thread_counts(
+                            runner_threads.or(node_threads),
+                        );
+                        if thread_counts.len() > 1 {
+                            let label_depth =
+                                depth + 1 + usize::from(args.is_some());
+                            let label_len = thread_counts
+                                .iter()
+                                .map(|n| format!("t={n}").len())
+                                .max()
+                                .unwrap_or_default();
+                            label_depth * DEPTH_COLS + label_len
+                        } else {
+                            0
+                        }
+                    }
+                    Self::Parent { .. } => 0,
+                };
 
                 // The maximum span of any runtime argument.
                 let args_max_span = node
@@ -91,7 +133,10 @@ impl<'a> EntryTree<'a> {
                     .max()
                     .unwrap_or_default();
 
-                node_name_span.max(children_max_span).max(args_max_span)
+                node_name_span
+                    .max(children_max_span)
+                    .max(args_max_span)
+                    .max(threads_max_span)
             })
             .max()
             .unwrap_or_default()
